@@ -1,1 +1,66 @@
-(* placeholder; theorems added below once the layer part is proved *)
+(* C13 — undefined or incomplete specifications never produce a verdict.
+   [run_rule g calls] = a history of Rule builder calls followed by assert_applies(g);
+   [spec_accepts calls] = the independent specification automaton (Model/Builder.v, bottom):
+   it sees only the KINDS of the calls and decides complete / incomplete / contradictory. *)
+From Coq Require Import List Bool NArith.
+From PTA Require Import Names Graph Search Rule SpecRule Builder Layer NamesProofs SearchProofs RuleProofs AlgebraProofs ExpansionProofs BuilderProofs LayerBuilderProofs.
+Import ListNotations.
+
+Section C13.
+Context (comp : Type) (ceqb : comp -> comp -> bool) (ceqb_spec : forall x y, reflect (x = y) (ceqb x y)).
+Context (rmatch : N -> list comp -> bool).
+
+(* Rule: for EVERY call history, a verdict (pass or AssertionError) is produced only if the history
+   supplies subject, verb, import type and object (or 'anything'), does not combine should_not with
+   another verb, uses 'anything' only with should_not, and gives no module list before a side is open *)
+Theorem C13_rule_history : forall g (calls : list (@rcall comp)),
+  is_verdict (run_rule ceqb rmatch g calls) = true -> spec_accepts calls = true.
+Proof. exact (rule_history_verdict_complete ceqb rmatch). Qed.
+
+Theorem C13_rule_incomplete_is_error : forall g (calls : list (@rcall comp)),
+  spec_accepts calls = false -> exists e, run_rule ceqb rmatch g calls = Err e.
+Proof. exact (rule_history_incomplete_is_error ceqb rmatch). Qed.
+
+(* a module name absent from the architecture (misspelt, too deep, flattened away): never a verdict *)
+Theorem C13_unknown_name : forall g v imp exc Ss Os f,
+  In f (plain Ss ++ plain Os) -> exists_f ceqb g f = false ->
+  is_verdict (AlgebraProofs.V ceqb rmatch g (mk_ucfg v imp exc Ss Os)) = false.
+Proof. exact (unknown_name_is_error ceqb ceqb_spec rmatch). Qed.
+
+(* a regex matching nothing: never a verdict (subject position; object position: C11_no_match_object) *)
+Theorem C13_no_match : forall g v imp exc p Os,
+  ExpansionProofs.matching rmatch g p = [] ->
+  is_err (AlgebraProofs.V ceqb rmatch g (mk_ucfg v imp exc [URegex p] Os)) = true.
+Proof. exact (ExpansionProofs.regex_subject_no_match ceqb rmatch). Qed.
+
+(* LayerRule: a verdict only if the architecture was given, exactly one subject layer was named,
+   and the lowered rule is complete and consistent *)
+Theorem C13_layer_history : forall g (calls : list (@lrcall comp)),
+  is_lverdict (run_layer_rule ceqb rmatch g calls) = true ->
+  exists st r a, lr_run lrinit calls = Ok st /\ lr_rule st = Some r /\ lr_arch st = Some a /\
+                 subj_one_layer a r /\ complete (absv r) = true.
+Proof. exact (layer_history_verdict_complete ceqb rmatch). Qed.
+
+(* a layer that was never defined is rejected at the call that names it *)
+Theorem C13_layer_undefined : forall (st : @lrstate comp) r a l st',
+  lr_rule st = Some r -> lr_arch st = Some a -> lookup_layer a l = None ->
+  lr_step st (LRAreNamedStr l) = Ok st' -> False.
+Proof. exact (@layer_rule_undefined_layer comp). Qed.
+End C13.
+
+Print Assumptions C13_rule_history.
+Print Assumptions C13_rule_incomplete_is_error.
+Print Assumptions C13_unknown_name.
+Print Assumptions C13_no_match.
+Print Assumptions C13_layer_history.
+Print Assumptions C13_layer_undefined.
+
+(* non-vacuity: the D14 history (should + import_anything) is rejected by the specification and is
+   an error in the model; a complete history yields a verdict *)
+Open Scope N_scope.
+Example C13_example :
+  let g := {| nodes := [[1]; [1;2]; [1;3]]; imps := [([1;2], [1;3])] |} in
+  spec_accepts [RModulesThat; RAreNamed [[1;2]]; RShould; RImportAnything] = false /\
+  run_rule N.eqb (fun _ _ => false) g [RModulesThat; RAreNamed [[1;2]]; RShould; RImportAnything] = Err EConfig /\
+  run_rule N.eqb (fun _ _ => false) g [RModulesThat; RAreNamed [[1;2]]; RShould; RImport; RAreNamed [[1;3]]] = Pass.
+Proof. repeat split; vm_compute; reflexivity. Qed.
